@@ -49,7 +49,9 @@ def programs(rng, tier):
     for _ in range(600 if tier == "quick" else 10000):
         nv = rng.choice([0, 1, 2, 3, 4])
         names = rand_names(rng, nv)
-        pool = names + [rng.choice(["y", "x_9", "X_0", "x_0 ", "", "true"])]   # one undeclared name
+        # one undeclared name; when the set has custom names, the anonymous-style names x_<i> (also with i < nv) are undeclared too
+        undeclared = [u for u in ["y", "x_9", "X_0", "x_0 ", "", "true", "x_0", "x_1", "x_2", "x_%d" % max(0, nv - 1)] if u not in names]
+        pool = names + [rng.choice(undeclared)]
         e = X.rand_tree(rng, rng.choice([0, 1, 2, 3]), pool, pconst=0.1)
         P.add([rng.choice(["safe_eval_expr", "safe_eval_expr", "eval_expr"]), names_sx(names), e])
     # ---- export: all functions of <=3 variables (the five node shapes), each also through the round-trip programs
